@@ -3,6 +3,10 @@
   run against the implementation (the theorems are stated for arbitrary instances).
 -/
 import Btcdeb.Model.Session
+import Btcdeb.Model.SpendMain
+import Btcdeb.Crypto.Sha1
+import Btcdeb.Crypto.Ripemd160
+import Btcdeb.Crypto.Ecdsa
 import Btcdeb.Spec.Taproot
 import Btcdeb.Crypto.Hash
 import Btcdeb.Crypto.Schnorr
@@ -18,5 +22,21 @@ def tapCtx : Model.TapCtx where
 def tapOracle : Spec.TapOracle where
   taggedHash := fun tag msg => Crypto.taggedHash (Crypto.strBytes tag) msg
   tweakCheck := fun q p t parity => Crypto.xonlyTweakAddCheck q parity p t
+
+/-- `BaseSignatureChecker` + the real hash functions -/
+def baseCtx : Model.Ctx where
+  sha256 := Crypto.sha256
+  ripemd160 := Crypto.ripemd160
+  sha1 := Crypto.sha1
+  checkLowS := fun sig => Crypto.checkLowS sig
+  checkLockTime := fun _ => false
+  checkSequence := fun _ => false
+  checkECDSA := fun _ _ _ _ => false
+  checkSchnorr := fun _ _ _ _ => .error (.script .UNKNOWN_ERROR)
+
+/-- TEMPORARY: transaction checker = base checker (replaced once Model/Sighash.lean lands) -/
+def checkerBuilder : Model.CheckerBuilder where
+  build := fun _ _ _ _ => baseCtx
+  base := baseCtx
 
 end Btcdeb.Glue
